@@ -33,6 +33,7 @@ type LoopSpec struct {
 	Decr *Clause
 	Body []*Clause // `each`: checked at the end of every iteration (may use iter_calls/iter_arg)
 	Entry []*Clause // `entry`: checked once, when the loop is entered
+	Exit  []*Clause // `exit`: checked on every edge leaving the loop
 }
 
 type FuncSpec struct {
@@ -134,7 +135,7 @@ var headWords = map[string]bool{
 	"modifies": true, "panics": true, "decreases": true, "pure": true, "log": true, "logs": true, "loop": true,
 	"invariant": true, "trusted": true, "source": true, "nobody": true, "lock": true, "shared": true,
 	"ghost": true, "chan": true, "chanmsg": true, "params": true, "creates": true, "consumes": true, "havoc": true, "assert": true,
-	"holds": true, "waitset": true, "immutable": true, "tracks": true, "ptriface": true, "nonnil": true, "preserves": true, "each": true, "entry": true, "wraparound": true,
+	"holds": true, "waitset": true, "immutable": true, "tracks": true, "ptriface": true, "nonnil": true, "preserves": true, "each": true, "entry": true, "exit": true, "wraparound": true,
 }
 
 type rawLine struct {
@@ -540,14 +541,18 @@ func (cs *Contracts) LoadContractFile(path, pkgPath string, pkgImports map[strin
 			}
 			curL = &LoopSpec{Key: k}
 			curF.Loops[k] = curL
-		case "entry":
+		case "entry", "exit":
 			if curL == nil {
-				cs.errf(ctx, c.line, "entry outside loop")
+				cs.errf(ctx, c.line, w+" outside loop")
 				continue
 			}
 			tags, text := splitTags(rest)
-			if cl := mk("entry", text, tags); cl != nil {
-				curL.Entry = append(curL.Entry, cl)
+			if cl := mk(w, text, tags); cl != nil {
+				if w == "entry" {
+					curL.Entry = append(curL.Entry, cl)
+				} else {
+					curL.Exit = append(curL.Exit, cl)
+				}
 			}
 		case "each":
 			if curL == nil {
